@@ -196,6 +196,17 @@ chk("C07", "model_checking",
     "TLA+ spec StructFac.tla (exact phases, rotated indices and shifts) model-checked by TLC + metamorphic replay into StructureFactor",
     "DESIGN.md section 7 C07")
 
+chk("C08", "model_checking",
+    "Own TLC run of StructFac.tla: for (setting, exact position p/N on general and special positions, hkl incl. 000) the accumulation "
+    "machine yields the orbit with the exact phase index of every orbit point, its pre-image count (orbit-stabiliser invariant) and an "
+    "operation reaching it. From these the harness assembles the explicit P1 sum occ (f(s)+f'+i f'') DW exp(2 pi i phi/N) with an "
+    "independent evaluation of the exported form-factor record and s^2 = c Q*(h)/4 on oblique conforming cells, and compares the complex "
+    "StructureFactor with it (Uiso / generic Uani on general positions / isotropic-equivalent Uani / no ADP; dispersion present, partly None, "
+    "absent). Lattice-shift invariance, linearity in occupancy, Uiso = equivalent Uani and F(000) at U = 0 are run as metamorphic calls.",
+    "Trusted: TLC; exported tables; the Debye-Waller and form-factor formulas of the oracle are written from the property text, not from the code.",
+    "TLA+ spec StructFac.tla (exact orbit and phases) model-checked by TLC + explicit-sum oracle compared with StructureFactor",
+    "DESIGN.md section 7 C08")
+
 ALL = ["C%02d" % i for i in range(1, 21)]
 
 
